@@ -6,7 +6,7 @@ from typing import List, Optional, Set, Tuple
 
 from ..cfg import CFG, Node
 from ..core import AnalysisError, Fn, Repo, call_name, calls_in, const_value, dotted, last_attr, short, walk_no_nested
-from ..domains import FRESH, OwnEval
+from ..domains import FRESH, SHALLOW, OwnEval
 from ..report import Check
 from ..terms import Atom, Poly, TermBuilder, mentions, single_atom, walk_atoms
 from ..util import self_attr_stores
@@ -230,7 +230,9 @@ def run(ck: Check, repo: Repo) -> None:
     for r in rets:
         t = tb.term(r.ast.value, r) if r.ast.value is not None else Poly()
         o = ev.own(r.ast.value, r) if r.ast.value is not None else None
-        ok = r.ast.value is not None and mentions(tb, t, is_e0) and o is not None and o.level == FRESH
+        # a new container is required (keys are re-assigned on it); sharing the tensors inside is harmless as long as nothing is written in place,
+        # which the accumulation obligation below decides
+        ok = r.ast.value is not None and mentions(tb, t, is_e0) and o is not None and o.level in (FRESH, SHALLOW)
         ck.ob("C10.4", info, r.ast, ok, "the returned transition is a copy of the first window element (its obs/action untouched)",
               detail=f"ownership {o.level if o else '?'}: {o.why if o else ''}")
     allowed = {f"self.{reward_key}", f"self.{ns_key}", f"self.{done_key}"}
@@ -463,6 +465,8 @@ def _is_one_step_sample(v: Optional[ast.AST], one_samplers: Set[str]) -> bool:
 _RBF = "agilerl/components/replay_buffer.py"
 _TOP = "agilerl/training/train_off_policy.py"
 VARIANTS = [
+    ("nstep-shallow-first-copy-with-cloned-accumulator-ok", _RBF, "        first_transition: TensorDict = self.n_step_buffer[0].clone()\n", "        first_transition: TensorDict = self.n_step_buffer[0].clone(recurse=False)\n", "silent", None),
+    ("nstep-deep-first-copy-without-extra-accumulator-clone-ok", _RBF, "        n_step_reward = n_step_reward.clone()\n", "", "silent", None),
     ("first-done-ignored", _RBF, "        if first_transition[self.done_key].bool().any():\n            return first_transition\n", "", "fire", "C10.1"),
     ("first-done-inverted", _RBF, "        if first_transition[self.done_key].bool().any():\n            return first_transition\n",
      "        if not first_transition[self.done_key].bool().any():\n            return first_transition\n", "fire", "C10.1"),
